@@ -798,13 +798,13 @@ def seq_key(seq):
     return ";".join(",".join(str(q[f]) for f in ENC) for q in seq)
 
 
-def replay_jobs(rnd, wits, msgs, n, pair_weight, must, tag):
+def replay_jobs(rnd, wits, msgs, n, pair_weight, must, tag, with_offer=True):
     """spec -> code: witness history of a control state + one more message of the alphabet.
     must(w, m): pairs that are always taken for one witness (the shortest) of each control-state class;
     pair_weight(w, m): sampling weight of the others (n of them, seeded)"""
     classes = {}
     for w in sorted(wits, key=lambda w: (len(w["hist"]), repr(w["hist"]))):
-        classes.setdefault((w["cfg"], w["mode"], w["expect"], w["offer"], w["authenticated"], w["alive"]), w)
+        classes.setdefault((w["cfg"], w["mode"], w["expect"], w["offer"] and with_offer, w["authenticated"], w["alive"]), w)
     pairs = [(w, m) for w in classes.values() for m in msgs if must(w, m)]
     allp = [(w, m) for w in wits for m in msgs]
     wts = [max(0.0, pair_weight(w, m)) for w, m in allp]
